@@ -15,6 +15,8 @@ var StringPool = []string{
 	")(", "@", "@@", "@(1)", "@contact", "bob@nyaruka.com", "x OR y", `" OR name != "`,
 	"AND", "has", "\n", "\t", "\u0001", " ", "+12065551212", "tel:+12065551212",
 	"image/jpeg:http://x.io/a.jpg", "Kigali", "yes", "NO", "red blue", "it's", "50%", "a,b;c",
+	// times at and beyond the edges of the clock, fractions longer than nanoseconds
+	"24:00", "0:00", "23:59:60", "10:30:61", "10:30:15.1234567891", "12:00:00.000000001 pm", "25:00",
 	// characters whose upper/lower case has a different UTF-8 length or rune count, case-folding oddities
 	"Ⱥ", "ȺȾ", "ⱥⱦ", "İstanbul", "ǅ", "ſ", "K", "ẞ", "ŉ", "ﬁ", "Ǆ", "ΐ", "Σίσυφος", "ǰ",
 }
